@@ -6,6 +6,7 @@ package main
 import (
 	"fmt"
 	"sort"
+	"time"
 
 	"lunar/engine/utils"
 
@@ -25,6 +26,7 @@ type COp struct {
 	Vid  int    `json:"vid,omitempty"`
 	Size int    `json:"size,omitempty"`
 	TTLg int64  `json:"ttl_grid,omitempty"` // ttl in units of 1/512 s
+	TNs  int64  `json:"ttl_ns,omitempty"`   // ttl in ns, off the grid (only with ttl_grid = 0, see ttlSeconds)
 	Sid  int    `json:"set,omitempty"`      // fire/commit: index of the set/begin op it belongs to
 	D    int64  `json:"advance_ns,omitempty"`
 
@@ -38,7 +40,34 @@ type COp struct {
 	Parked bool  `json:"parked,omitempty"` // begin: stopped at the clock reading
 	Mask   int64 `json:"held_mask"`
 	Held   int64 `json:"held_size"`
-	Tb     int64 `json:"clock_read_ns,omitempty"` // set/commit: clock reading used for the expiry
+	Tb     int64 `json:"clock_read_ns,omitempty"`    // set/commit: clock reading used for the expiry
+	Slp    int   `json:"sleepers_started,omitempty"` // set/commit: sleepers that registered with the clock
+}
+
+// ttl of a set/begin/commit op in ns.
+func (o *COp) ttl() int64 { return o.TTLg*G + o.TNs }
+
+// ttlSeconds is the float64 handed to Set. On the 1/512 s grid the code's
+// conversion time.Duration(float64(time.Second)*ttlSec) is exact. A ttl of a
+// few ns off the grid is passed as (ns +- 0.5)/1e9, half a nanosecond away
+// from the truncation boundaries, so that the conversion yields exactly ns
+// whatever the rounding of the product (checked here).
+func ttlSeconds(grid, ns int64) float64 {
+	if ns == 0 {
+		return float64(grid) / 512
+	}
+	if grid != 0 || ns > 1000 || ns < -1000 {
+		panic("c12 harness: off-grid ttl only as a few ns")
+	}
+	x := float64(ns) + 0.5
+	if ns < 0 {
+		x = float64(ns) - 0.5
+	}
+	v := x / 1e9
+	if int64(time.Duration(float64(time.Second)*v)) != ns {
+		panic("c12 harness: off-grid ttl not robust")
+	}
+	return v
 }
 
 type CacheCase struct {
@@ -100,18 +129,10 @@ func (r *cacheRun) do(o COp) {
 	case "has":
 		o.Found = r.cache.Has(o.Key)
 	case "set":
-		err := r.cache.Set(o.Key, item{o.Vid, o.Size}, float64(o.TTLg)/512)
+		err := r.cache.Set(o.Key, item{o.Vid, o.Size}, ttlSeconds(o.TTLg, o.TNs))
 		o.Ok = err == nil
 		o.Tb = o.At
-		exp := 0
-		if o.Ok {
-			exp = 1
-		}
-		r.w.settle(exp)
-		if o.Ok {
-			r.sleeper[idx] = r.w.reg - 1
-		}
-		r.sets = append(r.sets, setInfo{idx, o.Key, o.Vid, o.Size, o.Tb, o.TTLg * G, o.Ok})
+		r.settled(&o, idx)
 	case "del":
 		r.cache.Del(o.Key)
 	case "fire":
@@ -125,12 +146,12 @@ func (r *cacheRun) do(o COp) {
 	case "begin":
 		p := r.w.clk.arm()
 		done := make(chan error, 1)
-		key, it, ttl := o.Key, item{o.Vid, o.Size}, float64(o.TTLg)/512
-		go func() { done <- r.cache.Set(key, it, ttl) }()
+		key, it, ttl := o.Key, item{o.Vid, o.Size}, ttlSeconds(o.TTLg, o.TNs)
+		release := r.w.helper()
+		go func() { done <- r.cache.Set(key, it, ttl); <-release }()
 		select {
 		case <-p.parked:
 			o.Parked = true
-			r.w.parked++
 			r.inflight[idx] = &inflight{p, done, o.At}
 		case err := <-done:
 			// returned without reading the clock (size test before the lock refused)
@@ -139,15 +160,7 @@ func (r *cacheRun) do(o COp) {
 			r.w.clk.mu.Unlock()
 			o.Ok = err == nil
 			o.Tb = o.At
-			exp := 0
-			if o.Ok {
-				exp = 1
-			}
-			r.w.settle(exp)
-			if o.Ok {
-				r.sleeper[idx] = r.w.reg - 1
-			}
-			r.sets = append(r.sets, setInfo{idx, o.Key, o.Vid, o.Size, o.Tb, o.TTLg * G, o.Ok})
+			r.settled(&o, idx)
 		}
 	case "commit":
 		f, ok := r.inflight[o.Sid]
@@ -157,21 +170,12 @@ func (r *cacheRun) do(o COp) {
 		}
 		delete(r.inflight, o.Sid)
 		b := r.k.Ops[o.Sid]
-		o.Key, o.Vid, o.Size, o.TTLg = b.Key, b.Vid, b.Size, b.TTLg
+		o.Key, o.Vid, o.Size, o.TTLg, o.TNs = b.Key, b.Vid, b.Size, b.TTLg, b.TNs
 		close(f.p.resume)
-		r.w.parked--
 		err := <-f.done
 		o.Ok = err == nil
 		o.Tb = f.tb
-		exp := 0
-		if o.Ok {
-			exp = 1
-		}
-		r.w.settle(exp)
-		if o.Ok {
-			r.sleeper[o.Sid] = r.w.reg - 1
-		}
-		r.sets = append(r.sets, setInfo{o.Sid, o.Key, o.Vid, o.Size, o.Tb, o.TTLg * G, o.Ok})
+		r.settled(&o, o.Sid)
 	default:
 		panic("unknown op " + o.Kind)
 	}
@@ -181,6 +185,17 @@ func (r *cacheRun) do(o COp) {
 		o.Held += int64(vals[i].Size)
 	}
 	r.k.Ops = append(r.k.Ops, o)
+}
+
+// settled is called when a Set (op o, identified by the index sid of its
+// set/begin op) has returned: waits for the sleeper it started, if any.
+// Whether one was started is an observation (o.Slp), not a precondition.
+func (r *cacheRun) settled(o *COp, sid int) {
+	o.Slp = r.w.settle(o.Ok)
+	if o.Slp > 0 {
+		r.sleeper[sid] = r.w.reg - 1
+	}
+	r.sets = append(r.sets, setInfo{sid, o.Key, o.Vid, o.Size, o.Tb, o.ttl(), o.Ok})
 }
 
 func (r *cacheRun) finish() {
@@ -193,12 +208,7 @@ func (r *cacheRun) finish() {
 	for _, id := range ids {
 		f := r.inflight[id]
 		close(f.p.resume)
-		r.w.parked--
-		exp := 0
-		if <-f.done == nil {
-			exp = 1
-		}
-		r.w.settle(exp)
+		r.w.settle(<-f.done == nil)
 	}
 	r.w.finish()
 }
@@ -234,7 +244,7 @@ func cacheCoq(k *CacheCase) string {
 			if o.Parked {
 				continue
 			}
-			op = fmt.Sprintf("OSet %d %d (%d, %d) %s %s", i, o.Key, o.Vid, o.Size, c.Z(o.TTLg*G), c.Z(o.Tb))
+			op = fmt.Sprintf("OSet %d %d (%d, %d) %s %s", i, o.Key, o.Vid, o.Size, c.Z(o.ttl()), c.Z(o.Tb))
 			out = "RSet " + c.B(o.Ok)
 		case "get":
 			op = fmt.Sprintf("OGet %d %s", o.Key, c.Z(o.At))
@@ -247,10 +257,10 @@ func cacheCoq(k *CacheCase) string {
 			op = fmt.Sprintf("OHas %d %s", o.Key, c.Z(o.At))
 			out = "RHas " + c.B(o.Found)
 		case "set":
-			op = fmt.Sprintf("OSet %d %d (%d, %d) %s %s", i, o.Key, o.Vid, o.Size, c.Z(o.TTLg*G), c.Z(o.Tb))
+			op = fmt.Sprintf("OSet %d %d (%d, %d) %s %s", i, o.Key, o.Vid, o.Size, c.Z(o.ttl()), c.Z(o.Tb))
 			out = "RSet " + c.B(o.Ok)
 		case "commit":
-			op = fmt.Sprintf("OSet %d %d (%d, %d) %s %s", o.Sid, o.Key, o.Vid, o.Size, c.Z(o.TTLg*G), c.Z(o.Tb))
+			op = fmt.Sprintf("OSet %d %d (%d, %d) %s %s", o.Sid, o.Key, o.Vid, o.Size, c.Z(o.ttl()), c.Z(o.Tb))
 			out = "RSet " + c.B(o.Ok)
 		case "del":
 			op = fmt.Sprintf("ODel %d", o.Key)
@@ -281,13 +291,13 @@ func cacheMonitor(k *CacheCase, suite string) []c.Hit {
 		vid, size int
 		tb, ttl   int64
 	}
-	last := map[int]st{}       // key -> most recent committed Set
-	byVid := map[int][]int{}   // vid -> keys it was ever committed under
+	last := map[int]st{}     // key -> most recent committed Set
+	byVid := map[int][]int{} // vid -> keys it was ever committed under
 	concurrent := false
 	for i, o := range k.Ops {
 		commit := func() {
 			if o.Ok {
-				last[o.Key] = st{o.Vid, o.Size, o.Tb, o.TTLg * G}
+				last[o.Key] = st{o.Vid, o.Size, o.Tb, o.ttl()}
 				byVid[o.Vid] = append(byVid[o.Vid], o.Key)
 			}
 		}
@@ -352,6 +362,8 @@ func containsInt(xs []int, x int) bool {
 
 func cacheRecord(o *c.Out, suite string, k *CacheCase) {
 	hit, miss, refused, boundary, stale, fires := 0, 0, 0, 0, 0, 0
+	nonpos, nonposProbes, restoreDead := 0, 0, 0
+	dead := map[int]bool{} // key -> last committed Set had ttl <= 0
 	exp := map[int64]bool{}
 	latest := map[int]int{}
 	for _, op := range k.Ops {
@@ -361,7 +373,14 @@ func cacheRecord(o *c.Out, suite string, k *CacheCase) {
 				break
 			}
 			if op.Ok {
-				e := op.Tb + op.TTLg*G
+				e := op.Tb + op.ttl()
+				if dead[op.Key] {
+					restoreDead++
+				}
+				dead[op.Key] = op.ttl() <= 0
+				if op.ttl() <= 0 {
+					nonpos++
+				}
 				exp[e-1], exp[e], exp[e+1] = true, true, true
 				if op.Kind == "commit" {
 					latest[op.Key] = op.Sid
@@ -377,6 +396,9 @@ func cacheRecord(o *c.Out, suite string, k *CacheCase) {
 			}
 			if exp[op.At] {
 				boundary++
+			}
+			if dead[op.Key] {
+				nonposProbes++
 			}
 		case "fire":
 			fires++
@@ -402,6 +424,9 @@ func cacheRecord(o *c.Out, suite string, k *CacheCase) {
 	o.CountN(suite+".probes_at_expiry±1ns", boundary)
 	o.CountN(suite+".sleeper_fires", fires)
 	o.CountN(suite+".stale_sleeper_fires", stale)
+	o.CountN(suite+".sets_with_ttl<=0", nonpos)
+	o.CountN(suite+".probes_of_entry_with_ttl<=0", nonposProbes)
+	o.CountN(suite+".stores_over_entry_with_ttl<=0", restoreDead)
 	nontrivial := hit > 0 && (boundary > 0 || refused > 0 || stale > 0)
 	idx := o.Case(suite, cacheCoq(k), k, nontrivial)
 	o.MonitorChecked(1)
@@ -415,7 +440,7 @@ func cacheRecord(o *c.Out, suite string, k *CacheCase) {
 func replayCache(o *c.Out, suite string, k *CacheCase) {
 	r := newCacheRun(k.Limit, k.T0)
 	for _, op := range k.Ops {
-		r.do(COp{Kind: op.Kind, Key: op.Key, Vid: op.Vid, Size: op.Size, TTLg: op.TTLg, Sid: op.Sid, D: op.D})
+		r.do(COp{Kind: op.Kind, Key: op.Key, Vid: op.Vid, Size: op.Size, TTLg: op.TTLg, TNs: op.TNs, Sid: op.Sid, D: op.D})
 	}
 	r.finish()
 	cacheRecord(o, suite, r.k)
@@ -423,7 +448,92 @@ func replayCache(o *c.Out, suite string, k *CacheCase) {
 
 // ---------------------------------------------------------------- generators
 
-var ttlGrid = []int64{0, 1, 2, 2, 512, 512, 1536, -1}
+var ttlGrid = []int64{0, 1, 2, 2, 512, 512, 1536, -1, 0, -512}
+
+// firePending fires the sleeper of set op sid if one is pending (scripted
+// scenarios: whether a Set started a sleeper is observed, not assumed).
+func (r *cacheRun) firePending(sid, key int) bool {
+	if _, ok := r.sleeper[sid]; !ok {
+		return false
+	}
+	r.do(COp{Kind: "fire", Sid: sid, Key: key})
+	return true
+}
+
+// genNonPositiveTTL: an entry stored with a time-to-live that is zero or
+// negative (a retry-after instant that is not in the future, ttl_seconds: 0)
+// is probed at +0, +1 ns, +1 s, +1 h, then the same key is stored again (the
+// dead entry must be replaceable) and probed across the new expiry. The
+// sleeper of the first store fires never / before / after the second store;
+// another key stored alongside must be unaffected. With a size limit the dead
+// entry occupies its size until a sleeper removes it.
+func genNonPositiveTTL(o *c.Out, t0 int64) {
+	type ttl struct{ g, ns int64 }
+	t0g := t0 / G
+	if t0%G != 0 {
+		panic("t0 not on the grid")
+	}
+	ttls := []ttl{{0, 0}, {0, -1}, {0, 1}, {-1, 0}, {-512, 0}, {-512 * 3600, 0},
+		{-t0g, 0} /* expiry instant = 0 exactly */, {-2 * t0g, 0} /* negative expiry instant */}
+	for _, lim := range []int64{0, 10} {
+		for _, tl := range ttls {
+			for fireAt := 0; fireAt < 3; fireAt++ { // never / before the 2nd store / after it
+				for _, ttl2 := range []ttl{{2, 0}, {0, 0}, {-1, 0}} {
+					if ttl2.g != 2 && fireAt != 0 && lim == 0 {
+						continue
+					}
+					var limit *int64
+					if lim > 0 {
+						l := lim
+						limit = &l
+					}
+					r := newCacheRun(limit, t0)
+					probe := func() {
+						r.do(COp{Kind: "get", Key: 1})
+						r.do(COp{Kind: "has", Key: 1})
+					}
+					r.do(COp{Kind: "set", Key: 2, Vid: 50, Size: 3, TTLg: 512 * 7200})
+					r.do(COp{Kind: "set", Key: 1, Vid: 51, Size: 4, TTLg: tl.g, TNs: tl.ns})
+					probe() // +0
+					r.do(COp{Kind: "adv", D: 1})
+					probe() // +1 ns
+					r.do(COp{Kind: "adv", D: sec - 1})
+					probe() // +1 s
+					r.do(COp{Kind: "adv", D: 3599 * sec})
+					probe() // +1 h
+					r.do(COp{Kind: "get", Key: 2})
+					if fireAt == 1 {
+						r.firePending(1, 1)
+						probe()
+					}
+					r.do(COp{Kind: "set", Key: 1, Vid: 52, Size: 4, TTLg: ttl2.g, TNs: ttl2.ns})
+					second := len(r.k.Ops) - 1
+					probe() // +0 of the second store
+					if fireAt == 2 {
+						r.firePending(1, 1) // stale sleeper of the dead entry
+						probe()
+					}
+					r.do(COp{Kind: "adv", D: 1})
+					probe()
+					if ttl2.g > 0 {
+						r.do(COp{Kind: "adv", D: ttl2.g*G - 1})
+						probe() // at the new expiry
+						r.do(COp{Kind: "adv", D: 1})
+						probe() // 1 ns after it
+					}
+					// a third store needs the room the dead entries may still occupy
+					r.do(COp{Kind: "set", Key: 0, Vid: 53, Size: 3, TTLg: 2})
+					r.firePending(second, 1)
+					r.do(COp{Kind: "set", Key: 0, Vid: 54, Size: 3, TTLg: 2})
+					r.do(COp{Kind: "get", Key: 0})
+					r.do(COp{Kind: "get", Key: 2})
+					r.finish()
+					cacheRecord(o, "cache", r.k)
+				}
+			}
+		}
+	}
+}
 
 func genCacheHistory(o *c.Out, rng *c.Rng, t0 int64) {
 	var limit *int64
@@ -441,7 +551,11 @@ func genCacheHistory(o *c.Out, rng *c.Rng, t0 int64) {
 		switch x := rng.Intn(100); {
 		case x < 28:
 			vid++
-			r.do(COp{Kind: "set", Key: key, Vid: vid, Size: c.Pick(rng, sizes), TTLg: c.Pick(rng, ttlGrid)})
+			op := COp{Kind: "set", Key: key, Vid: vid, Size: c.Pick(rng, sizes), TTLg: c.Pick(rng, ttlGrid)}
+			if rng.Chance(1, 12) {
+				op.TTLg, op.TNs = 0, c.Pick(rng, []int64{-1, 1, -2})
+			}
+			r.do(op)
 		case x < 52:
 			r.do(COp{Kind: "get", Key: key})
 		case x < 60:
@@ -521,9 +635,7 @@ func genRestoreScenarios(o *c.Out, t0 int64) {
 						}
 						r.do(COp{Kind: "adv", D: 1})
 						r.do(COp{Kind: "get", Key: 1})
-						if r.k.Ops[setIdx].Ok {
-							r.do(COp{Kind: "fire", Sid: setIdx, Key: 1})
-						}
+						r.firePending(setIdx, 1)
 						r.do(COp{Kind: "set", Key: 0, Vid: 14, Size: sz[0], TTLg: 1})
 						r.do(COp{Kind: "get", Key: 0})
 						r.do(COp{Kind: "get", Key: 2})
@@ -562,9 +674,7 @@ func genFireOrders(o *c.Out, t0 int64) {
 				}
 				r.do(COp{Kind: "adv", D: 4 * G})
 				for _, p := range perm {
-					if r.k.Ops[setOps[p]].Ok {
-						r.do(COp{Kind: "fire", Sid: setOps[p], Key: ks[p]})
-					}
+					r.firePending(setOps[p], ks[p])
 					r.do(COp{Kind: "set", Key: ks[p], Vid: 31 + p, Size: 2, TTLg: 512})
 					for key := 0; key < 2; key++ {
 						r.do(COp{Kind: "get", Key: key})
